@@ -58,9 +58,17 @@ var Errnos = map[string]syscall.Errno{
 // Samples: catalogue name -> a sample value of that Go type (for HasType).
 var Samples = map[string]error{}
 
+// Conflicts lists Go types that two catalogue rows claimed: a public constructor
+// returned a value of an unexpected type (the catalogue cannot be trusted then).
+var Conflicts []string
+
 func reg(ty string, sample error) {
 	Samples[ty] = sample
 	t := reflect.TypeOf(sample).String()
+	if old, ok := GoType2Ty[t]; ok && old != ty {
+		Conflicts = append(Conflicts, t+": "+old+" / "+ty)
+		return
+	}
 	GoType2Ty[t] = ty
 	k := string(errors.GetTypeKey(sample))
 	Fam2Ty[k] = ty
@@ -93,6 +101,17 @@ func sortedKeys(m map[string]error) []string {
 	return ks
 }
 
+// findType returns the first layer of the chain whose Go type is named name
+// (whatever other layers the constructor adds around it).
+func findType(err error, name string) error {
+	for c := err; c != nil; c = errors.UnwrapOnce(c) {
+		if strings.HasSuffix(reflect.TypeOf(c).String(), "."+name) {
+			return c
+		}
+	}
+	panic("harness: no layer of type " + name + " in " + reflect.TypeOf(err).String())
+}
+
 func unwrapTo(err error, n int) error {
 	for i := 0; i < n; i++ {
 		err = errors.UnwrapOnce(err)
@@ -102,15 +121,16 @@ func unwrapTo(err error, n int) error {
 
 func init() {
 	base := goerrors.New("x")
+	other := pkgerrors.New("y") // an unrelated error (another type, another text)
 	reg("goErr", base)
 	reg("ctxDeadline", context.DeadlineExceeded)
 	reg("errno", syscall.ENOENT)
 	n := errors.New("x")
 	reg("withStack", n)
-	reg("leafError", unwrapTo(n, 1))
+	reg("leafError", findType(n, "leafError"))
 	reg("withPrefix", errors.WithMessage(base, "p"))
-	reg("withNewMessage", unwrapTo(errors.Newf("a%w", base), 2))
-	reg("withSecondaryError", errors.WithSecondaryError(base, base))
+	reg("withNewMessage", findType(errors.Newf("a%w", base), "withNewMessage"))
+	reg("withSecondaryError", errors.WithSecondaryError(base, other))
 	reg("withHint", errors.WithHint(base, "h"))
 	reg("withDetail", errors.WithDetail(base, "d"))
 	reg("withSafeDetails", errors.WithSafeDetails(base, "a"))
@@ -120,14 +140,14 @@ func init() {
 	reg("unimplementedError", issuelink.UnimplementedError(errors.IssueLink{}, "m"))
 	reg("withContext", errors.WithContextTags(base, logtags.AddTag(context.Background(), "k", "v")))
 	reg("withAssertionFailure", errors.WithAssertionFailure(base))
-	reg("withMark", errors.Mark(base, base))
+	reg("withMark", errors.Mark(base, other))
 	reg("barrierErr", errors.Handled(base))
-	reg("joinError", join.Join(base, base))
+	reg("joinError", join.Join(base, other))
 	reg("withHTTPCode", exthttp.WrapWithHTTPCode(base, 404))
 	reg("withGrpcCode", extgrpc.WrapWithGrpcCode(base, codes.NotFound))
 	reg("goWrapError", fmt.Errorf("a%w", base))
-	reg("goWrapErrors", fmt.Errorf("%w%w", base, base))
-	reg("goJoin", goerrors.Join(base, base))
+	reg("goWrapErrors", fmt.Errorf("%w%w", base, other))
+	reg("goJoin", goerrors.Join(base, other))
 	reg("pkgFundamental", pkgerrors.New("x"))
 	reg("pkgWithMessage", pkgerrors.WithMessage(base, "m"))
 	reg("pkgWithStack", pkgerrors.WithStack(base))
@@ -155,6 +175,7 @@ func init() {
 	reg("uRegWrap", &utypes.URegWrap{Err: base})
 	reg("uRegWrapFull", &utypes.URegWrapFull{Err: base})
 	reg("uRegMulti", &utypes.URegMulti{Errs: []error{base}})
+	reg("uMultiCause", &utypes.UMultiCause{Errs: []error{base}})
 	reg("uAnnotWrap", &utypes.UAnnotWrap{Err: base})
 	reg("uKeyWrap", &utypes.UKeyWrap{Err: base})
 	reg("uMaybe", &utypes.UMaybe{})
